@@ -21,7 +21,10 @@ RULE = ("BFS over canonical session states (alive, registered?, #open connection
 BOUNDS = {"quick": "closure of the state graph (<= 2 open connections); all sequences of length <= 2 over 30 frames + length 3 over a 10-frame "
                    "sub-alphabet, x {one per recv, coalesced}; runs k in {1,2,3,8,64}",
           "thorough": "closure; all sequences of length <= 3 over 30 frames, length 4 over the 8-frame sub-alphabet; runs k = 1..64"}
-ASSUMPTIONS = ["the one malformed frame of the alphabet (bad CPF item count) is outside 'well-formed': for it only 'one error frame or a "
+ASSUMPTIONS = ["requests forwarded through a [UCMM] Route entry: the other device is a scripted transport that answers Register and each "
+               "service with the reply a real simulator gave it, in time, late (after the Unconnected Send timeout) or never; "
+               "all sequences of 3 (thorough 4) forwarded requests over {read, write, Get Attribute Single} x which reply is late",
+               "the one malformed frame of the alphabet (bad CPF item count) is outside 'well-formed': for it only 'one error frame or a "
                "closed connection' is required (C08's rule)",
                "at most 2 simultaneously open Forward Open connections per session are explored"]
 
@@ -368,6 +371,19 @@ def shard(acc, item, tier, seed):
         for kk, m in bad:
             acc.violation(kk, {"op": "run", "k": k, "pattern": list(pattern)}, m)
         acc.sample({"op": "run", "k": k, "pattern": list(pattern)})
+    elif what == "routed":
+        _, k, K = item
+        for i, (order, late, then) in enumerate(routed_cases(tier)):
+            if i % K != k:
+                continue
+            acc.ev()
+            if late is not None:
+                acc.ntc()
+            acc.outcome("routed:%s" % ("healthy" if late is None else then))
+            acc.count("transitions", len(order))
+            for kk, m in check_routed(order, late, then):
+                acc.violation(kk, {"op": "routed", "order": list(order), "late": late, "then": then}, m)
+        acc.sample({"op": "routed", "order": ["rd", "wr", "gas"], "late": 0, "then": "stall"})
     elif what == "env":
         _, which = item
         acc.ev()
@@ -485,6 +501,105 @@ def check_env(which):
     return bad
 
 
+# ------------------------------------------------------------------------------------------------------
+# requests FORWARDED through a [UCMM] Route entry to another device: the real UCMM with its real client.connector on a scripted
+# transport (mc.clientenv); the other device is reduced to "answers each service with the reply a real simulator gave it"
+ROUTED = {"rd": lambda: W.read_tag(W.tag_path("a"), 2), "wr": lambda: W.write_tag(W.tag_path("a"), W.INT, [1, 1]),
+          "gas": lambda: W.get_attribute_single(W.cia_path(2, 1, 1))}
+_routed = {}
+
+
+def routed_target():
+    """replies of a real simulator (the 'other device') to Register and to each request of ROUTED, sent to it directly"""
+    if not _routed:
+        T = sim.Sim(CFG)
+        peer = ("127.0.0.1", 20001)
+        reg, _, _ = T.frame(W.register(b"ctx-trg0"), peer)
+        sess = W.dec_frame(reg)[0]["session"]
+        by = {}
+        for name, mk in ROUTED.items():
+            cip = mk()
+            body = struct.pack("<IH", 0, 5) + W.cpf([(0x0000, b""), (0x00B2, cip)])
+            rp, _, _ = T.frame(W.frame(0x6F, body, sess, 0, b"ctx-trg1"), peer)
+            by[cip[0]] = bytes(rp)
+        _routed.update(reg=bytes(reg), by=by)
+    return _routed
+
+
+def check_routed(order, late, then):
+    """order: request kinds forwarded one after the other on one session; late: ordinal of the forwarded request whose reply the
+    other device delays beyond the Unconnected Send timeout (None: healthy), then: 'stall' (the reply arrives after the timeout) or
+    'silence' (never).  Every request that is not the late one must get exactly the other device's reply for ITS service."""
+    from mc import clientenv as CE
+    M = sim.mods()
+    tgt = routed_target()
+    reg, by = tgt["reg"], tgt["by"]
+
+    class U(M.ucmm.UCMM):
+        route = {"1/2": "127.0.0.1:44819"}
+
+    F = sim.Sim(CFG, ucmm_class=U)
+    session = F.register(ADDR)
+    plan = {}
+    if late is not None:
+        plan = {"cut_s": len(reg) + sum(len(by[ROUTED[k]()[0]]) for k in order[:late]), "then": then}
+    bad = []
+    factory = lambda: CE.ServiceBackend(reg, by)
+    with CE.Env(None, plans=[plan], recorded=[factory]) as env:
+        for i, kind in enumerate(order):
+            cip = ROUTED[kind]()
+            ctx = b"rt%02d-%-3s" % (i, kind.encode())
+            desc = "forwarded request %d (%s) of %r, reply %r of the other device %s" % (i, kind, list(order), late, then if late is not None else "healthy")
+            try:
+                rpy, proceed, status = F.frame(W.send_rr_data(session, cip, ctx, route_path=[("port", (1, 2))]), ADDR)
+            except CE.Hang as exc:
+                bad.append(("routed:hang", "%s: the UCMM waits without a timeout: %s" % (desc, exc)))
+                break
+            except Exception as exc:
+                bad.append(("routed:exception", "%s: logix.process raised %s: %s" % (desc, type(exc).__name__, exc)))
+                break
+            if rpy is None:
+                bad.append(("routed:no-reply", "%s: no reply frame" % desc))
+                break
+            try:
+                f = W.split_frames(rpy)
+            except W.WireError as e:
+                bad.append(("routed:reply-not-a-frame", "%s: %s" % (desc, e)))
+                break
+            if len(f) != 1:
+                bad.append(("routed:reply-count", "%s: %d frames" % (desc, len(f))))
+                break
+            f = f[0]
+            if f["context"] != ctx or f["session"] != session or f["command"] != 0x6F:
+                bad.append(("routed:wrong-echo", "%s: reply command 0x%x session 0x%x context %r" % (desc, f["command"], f["session"], f["context"])))
+            if f["status"] != 0:
+                if i != late:
+                    bad.append(("routed:supported-request-enip-error", "%s: answered with encapsulation status 0x%x although the other device "
+                                "answers this request in time (on a new connection, if need be)" % (desc, f["status"])))
+                continue
+            try:
+                got = W.dec_send_data(f)["cip"]
+            except W.WireError as e:
+                bad.append(("routed:reply-framing", "%s: %s" % (desc, e)))
+                continue
+            want = W.dec_send_data(W.split_frames(by[cip[0]])[0])["cip"]
+            if not got or got[0] != (cip[0] | 0x80):
+                bad.append(("routed:wrong-reply-service", "%s: reply service %s, expected 0x%02x" % (desc, got[:1].hex(), cip[0] | 0x80)))
+            elif bytes(got) != bytes(want):
+                bad.append(("routed:wrong-reply", "%s: reply %s, the other device answered %s" % (desc, bytes(got).hex(), bytes(want).hex())))
+    return bad
+
+
+def routed_cases(tier):
+    kinds = sorted(ROUTED)
+    n = 3 if tier == "quick" else 4
+    for order in itertools.product(kinds, repeat=n):
+        yield order, None, "stall"
+        for late in range(n):
+            for then in ("stall", "silence"):
+                yield order, late, then
+
+
 def run(ctx):
     from mc import explore
     # Part 1: BFS over session states.  State key = canonical; representative = history.
@@ -544,6 +659,8 @@ def run(ctx):
                   "other-session:register,fwd_open,fwd_open,unit_read,eof", "other-session:register,bad_command",
                   "other-session:register,fwd_open,unknown_tag"):
         items.append(("env", which))
+    for k in range(4):
+        items.append(("routed", k, 4))
     total.merge(ctx.pmap(__name__, "shard2", items))
     total.count("traces_validated_against_impl", total.counters.get("transitions", 0))
     return total
@@ -570,7 +687,7 @@ def guards(acc, ctx):
     g = []
     if len(acc.states) < 8:
         g.append("fewer than 8 session states (%d)" % len(acc.states))
-    for k in ("register:alive", "unregister:ended", "read_ok:alive", "fwd_open:alive", "unit_read:alive", "unknown_service:ended", "run", "seqlen=2"):
+    for k in ("register:alive", "unregister:ended", "read_ok:alive", "fwd_open:alive", "unit_read:alive", "unknown_service:ended", "run", "seqlen=2", "routed:healthy", "routed:stall", "routed:silence"):
         if not acc.outcomes.get(k):
             g.append("outcome %s never observed" % k)
     return g
@@ -585,6 +702,8 @@ def replay(case):
         a = core.Acc()
         shard(a, ("run", case["k"], tuple(case["pattern"])), "quick", 0)
         return [v["msg"] for v in a.violations]
+    if case["op"] == "routed":
+        return [m for k, m in check_routed(tuple(case["order"]), case["late"], case["then"])]
     return [m for k, m in check_env(case["which"])]
 
 
